@@ -1,6 +1,8 @@
 //! hx-clock: implementation executor for C11 (the node clock under concurrent callers).
 //!
-//!   seq <node> <wall0> ev...     one task, deterministic: ev = g:<wall> | r:<wall>:<stamp>
+//!   seq <node> <wall0> ev...     one task, deterministic: ev = g:<wall> | r:<wall>:<stamp> |
+//!                                x:<wall> (a caller that gives up: the request is queued, the
+//!                                future is dropped before the reply; the stamp is lost)
 //!                                (exact comparison with the model's clock actor)
 //!   conc <rt> <node> <k> <m> <wall>   k tasks x m get_time calls on a stalled wall clock,
 //!                                rt = ct (current-thread) | mt (4 worker threads); the set
@@ -46,6 +48,7 @@ fn run_seq(w: &mut CaseWriter, node: u64, wall0: u64, evs: &[String]) {
         let clock = Clock::new(node as u8);
         let mut out = Vec::new();
         let mut hot = false; // the clock's counter may be in the back-pressure range
+        let mut cancelled = 0u64;
         for e in evs {
             let p: Vec<&str> = e.split(':').collect();
             match p.as_slice() {
@@ -63,6 +66,30 @@ fn run_seq(w: &mut CaseWriter, node: u64, wall0: u64, evs: &[String]) {
                             break;
                         },
                     }
+                },
+                ["x", wl] => {
+                    set_wall(hx(wl));
+                    let c = clock.clone();
+                    let mut fut = Box::pin(async move { c.get_time().await });
+                    let waker = futures::task::noop_waker();
+                    let mut cx = std::task::Context::from_waker(&waker);
+                    // one poll queues the request; then the caller goes away
+                    // (a dead actor surfaces as a panic of the caller, here as for `g`)
+                    let first = match std::panic::catch_unwind(std::panic::AssertUnwindSafe(|| {
+                        std::future::Future::poll(fut.as_mut(), &mut cx).is_pending()
+                    })) {
+                        Ok(p) => p,
+                        Err(_) => {
+                            out.push("panic".into());
+                            break;
+                        },
+                    };
+                    drop(fut);
+                    // let the actor handle the request under THIS wall clock reading: nothing tells us
+                    // when it has, so wait longer than its longest pause (1 ms of back-pressure)
+                    cancelled += 1;
+                    tokio::time::sleep(Duration::from_millis(if hot { 8 } else { 3 })).await;
+                    out.push(if first { "x".into() } else { "x-ready".into() });
                 },
                 ["r", wl, ts] => {
                     set_wall(hx(wl));
@@ -105,7 +132,7 @@ fn run_seq(w: &mut CaseWriter, node: u64, wall0: u64, evs: &[String]) {
             if (t & 0xFF) != node && tick_of(t) <= wl + DRIFT && cur.max(tick_of(t)) <= wl + DRIFT && cnt_ok {
                 regs.push(t);
             }
-        } else if o != "panic" && o != "?" {
+        } else if o != "panic" && o != "?" && !o.starts_with('x') {
             let v = hx(o);
             if let Some(l) = last {
                 if HLCTimestamp::from_u64(l) >= HLCTimestamp::from_u64(v) {
@@ -256,7 +283,9 @@ fn main() {
     // sequential, exact: random event sequences with stalled/backward/forward walls and remote
     // stamps around the drift boundary and on the same tick
     let n_seq = if args.thorough() { 20_000 } else { 2_500 };
-    for _ in 0..n_seq {
+    for i in 0..n_seq {
+        // every third history has callers that give up between request and reply
+        let with_cancel = i % 3 == 2;
         let node = rng.below(256);
         let wall0 = 1_000_000 + rng.below(1_000_000_000);
         let mut wall = wall0;
@@ -268,7 +297,9 @@ fn main() {
                 1 | 2 | 3 => wall,
                 _ => wall + rng.below(3),
             };
-            if rng.chance(3, 4) {
+            if with_cancel && rng.chance(1, 6) {
+                evs.push(format!("x:{:x}", wall));
+            } else if rng.chance(3, 4) {
                 evs.push(format!("g:{:x}", wall));
             } else {
                 let dt: i64 = match rng.below(6) {
